@@ -131,6 +131,8 @@ def make_args(sc):
     if nch < 1 or ns < 1:
         raise Rejected("shape")
     top = 16
+    if k == "remove_zerodm" and dt == np.uint8 and nch > 120:
+        dt = np.float32  # a uint8 row this wide cannot keep its sum below 256 (see below): float data instead
     if k == "remove_zerodm" and dt == np.uint8:
         # the kernel's Python definition sums a row in the input dtype when interpreted: keep
         # the row sum below 256 so that its arithmetic is exact (the property's proviso)
@@ -213,6 +215,17 @@ def generate(rng, tier) -> dict:
                 if k == "subband":
                     sc["shape"]["nsub"] = 1
             sc["threads"] = sorted(set(sc["threads"]) | {t0})
+        elif "nchans" in sc["shape"] and k not in EXTRA and rng.random() < 0.25:
+            # a very short block of very wide data (fewer spectra than threads), and the reverse
+            if rng.random() < 0.7:
+                sc["shape"].update({"nchans": rng.choice([1024, 1088, 2048, 4096]), "nsamps": rng.randint(1, 15)})
+            else:
+                sc["shape"].update({"nchans": rng.choice([1, 2, 3]), "nsamps": rng.choice([1024, 4099, 20000])})
+            if "maxdelay" in sc["shape"]:
+                sc["shape"]["maxdelay"] = 0
+            if k == "subband":
+                sc["shape"]["nsub"] = 1
+            sc["aspect"] = True
             sc["partition_edge"] = True
         sc["chunksize"] = rng.choice([0, 0, 1, 3])
         sc["repeats"] = rng.randint(1, 4)
@@ -220,7 +233,19 @@ def generate(rng, tier) -> dict:
         sc["mode"] = "sim"
         sc["shape"] = gen_shape(k, rng)
         sc["schedule"] = {"threads": rng.randint(1, 4), "chunk": rng.choice([0, 0, 1, 2]), "seed": rng.randrange(1 << 30),
-                          "p": rng.choice([0.02, 0.05, 0.1, 0.3, 0.5]), "knobs": rng.choice([None, None, 1, 16, 64])}
+                          "p": rng.choice([0.02, 0.05, 0.1, 0.3, 0.5]), "knobs": rng.choice([None, None, 1, 2, 3, 16, 64])}
+        if "nchans" in sc["shape"] and k not in EXTRA and rng.random() < 0.12:
+            # extreme aspect ratios: a very short block of very wide data (the tail block of a streamed read) and
+            # the reverse - where "too few iterations for the pool" special cases live
+            if rng.random() < 0.6:
+                sc["shape"].update({"nchans": rng.choice([64, 128, 130, 192, 200]), "nsamps": rng.choice([1, 1, 2, 3])})
+            else:
+                sc["shape"].update({"nchans": rng.choice([1, 2]), "nsamps": rng.choice([64, 130, 200])})
+            if "maxdelay" in sc["shape"]:
+                sc["shape"]["maxdelay"] = 0
+            if k == "subband":
+                sc["shape"]["nsub"] = 1
+            sc["aspect"] = True
     return sc
 
 
@@ -330,6 +355,8 @@ def execute(sc, ctx) -> None:
     niter = _niter(sc)
     if niter <= 1:
         ctx.probe("degenerate-shape")
+    if sc.get("aspect"):
+        ctx.probe("extreme-aspect-ratio:" + sc["mode"])
     ctx.sig += [k, sc["mode"], sc.get("dtype")]
     if sc["mode"] == "sim":
         sch = sc["schedule"]
